@@ -78,7 +78,7 @@ func c15MultiKey() *TextSet {
 			`{"a":{"x":2,"y":3,"z":4},"b":[1,2,3,4,5]}`, `{"a":{"x":1,"y":{"p":1,"q":2,"r":3}},"c":1}`, `{"a":{"y":{"p":2,"q":3,"r":4}},"c":2,"d":[1]}`,
 			`[{"a":1,"b":2,"c":3},{"d":4,"e":5,"f":6}]`, `[{"a":2,"b":3,"c":4},{"d":4,"e":6,"f":7},1]`, `{}`, `{"e":1,"f":2,"g":3,"h":4}`, `[1]`, `[1,2,3]`, `[3,2,1,4]`,
 			// keys on which a sloppy comparator ties or is not transitive: case variants, number-like, empty, non-ASCII
-			`{"id":1,"Id":2,"ID":3}`, `{"id":10,"Id":20,"ID":30,"iD":40}`, `{"1":1,"01":2,"a":3}`, `{"2":1,"10":2,"1a":3,"":4}`, `{"é":1,"e":2,"E":3,"É":4}`,
+			`{"id":1,"Id":2,"ID":3}`, `{"id":10,"Id":20,"ID":30,"iD":40}`, `{"1":1,"01":2,"a":3}`, `{"2":1,"10":2,"1a":3,"":4}`, `{"é":1,"e":2,"E":3,"É":4}`, `{"a10":1,"a1a":2,"a2":3}`, `{"x-10":1,"x-1a":2,"x-2":3,"x-":4}`, `{"v1.10":1,"v1.9":2,"v1.1a":3}`,
 			`{"rows":[{"10":1,"1a":2,"2":3,"":4},[{"2":1,"10":2,"1a":3}]]}`, `[[{"Id":1,"id":2,"ID":3}],{"k":{"2":1,"10":2,"1a":3}}]`,
 		}
 		var vs []V
@@ -141,7 +141,7 @@ func init() {
 			return []string{"history/len=2", "history/len=1", "determinism", "isolation/none"}
 		},
 		Assume: []string{"the snapshot (public fields, dynamic types, Json() of every node) captures the state the listed calls can observe; histories up to the bound are additionally run without state de-duplication", "map iteration order is exercised by in-process repetition (free-running); see DESIGN.md section 5"},
-		Budget: budget(5*time.Minute, 45*time.Minute),
+		Budget: budget(8*time.Minute, 45*time.Minute),
 	})
 }
 
@@ -150,6 +150,14 @@ func enumC15(tier string, e *engine.Emitter) {
 		for _, w1 := range c15IsoWorlds {
 			for _, w2 := range c15IsoWorlds {
 				e.Emit(engine.Case{Kind: "c15iso:" + o, Leg: "isolation/" + o, A: w2[0], B: w2[1], C: w1[0], X: w1[1]})
+			}
+		}
+	}
+	for _, o := range []string{"none", "SET", "MULTISET"} {
+		h := Huge()
+		for _, at := range h.Texts {
+			for _, bt := range h.Texts {
+				e.Emit(engine.Case{Kind: "c15det:" + o, Leg: "determinism/huge/" + o, A: at, B: bt})
 			}
 		}
 	}
